@@ -47,6 +47,13 @@ Plan gen_afail_plan(const std::string &prop, uint64_t seed, int64_t run) {
         case 22: t = mk("set_valuestring", {R(r), R(r), 0, 0}, {gen_string(r, false, false, 40) + "-grow-grow-grow-grow"}); break;
         default: t = mk("add_obj_alias", {R(r), R(r), R(r)}); break;
     }
+    if (t.op == "replace_key" || t.op == "replace_key_alias" || t.op == "add_obj" || t.op == "add_obj_alias") {
+        // these calls re-key the item they are given: make sure detached items that already carry an owned or a constant key exist
+        p.steps.push_back(mk("new_object"));
+        p.steps.push_back(mk(r.chance(1, 2) ? "add_obj_cs" : "addh", {R(r), R(r), R(r), R(r)}, {key, "v"}));
+        p.steps.push_back(mk("detach_ptr", {R(r), R(r), R(r)}));
+        p.steps.push_back(mk("addh", {R(r), R(r), R(r), R(r)}, {key, "w"}));
+    }
     t.task = 9;  // the faulted call
     p.steps.push_back(t);
     // suffix: the library must still be usable
